@@ -366,4 +366,181 @@ theorem equi_count_bounds (N L : Int) (a : ℚ) (off : Int) (hL0 : 0 ≤ L) (hLN
         apply div_le_div_of_nonneg_right _ ha0.le; linarith
       linarith
 
+/-- a downward-closed predicate on the naturals is counted, below `m`, by its first failure -/
+theorem countP_prefix (P : ℕ → Bool) (hmono : ∀ i j, i ≤ j → P j = true → P i = true) (m : ℕ) :
+    (∀ j < (List.range m).countP P, P j = true) ∧
+    ((List.range m).countP P < m → P ((List.range m).countP P) = false) ∧
+    (List.range m).countP P ≤ m := by
+  induction m with
+  | zero => simp
+  | succ m ih =>
+    obtain ⟨h1, h2, h3⟩ := ih
+    rw [List.range_succ, List.countP_append]
+    simp only [List.countP_cons, List.countP_nil]
+    by_cases hp : P m = true
+    · have hc : (List.range m).countP P = m := by
+        by_contra hne
+        have hlt : (List.range m).countP P < m := by omega
+        have := h2 hlt
+        have := hmono _ _ hlt.le hp
+        simp_all
+      simp only [hp, if_true, hc]
+      refine ⟨?_, by omega, by omega⟩
+      intro j hj
+      exact hmono j m (by omega) hp
+    · simp only [hp, Bool.false_eq_true, if_false, Nat.add_zero, Nat.zero_add]
+      refine ⟨h1, ?_, by omega⟩
+      intro hlt
+      by_cases hc : (List.range m).countP P < m
+      · exact h2 hc
+      · have : (List.range m).countP P = m := by omega
+        rw [this]; simpa using hp
+
+/-- the rounded grid is weakly increasing in the index when `a > 1` -/
+theorem grid_mono (a : ℚ) (off : Int) (ha : 1 < a) (i j : ℕ) (hij : i ≤ j) :
+    roundHalfEven ((off : ℚ) + (i : ℚ) * a) ≤ roundHalfEven ((off : ℚ) + (j : ℚ) * a) := by
+  rcases Nat.eq_or_lt_of_le hij with h | h
+  · subst h; exact le_refl _
+  · have hlo := rnd_lower ((off : ℚ) + (j : ℚ) * a)
+    have hup := rnd_upper ((off : ℚ) + (i : ℚ) * a)
+    have hij' : (i : ℚ) + 1 ≤ (j : ℚ) := by exact_mod_cast h
+    have : ((roundHalfEven ((off : ℚ) + (i : ℚ) * a) : ℤ) : ℚ) < ((roundHalfEven ((off : ℚ) + (j : ℚ) * a) : ℤ) : ℚ) := by
+      nlinarith
+    have : roundHalfEven ((off : ℚ) + (i : ℚ) * a) < roundHalfEven ((off : ℚ) + (j : ℚ) * a) := by exact_mod_cast this
+    omega
+
+
+
+/-- integrality step: an integer multiple of `a > 0` strictly between `0` and `a` does not exist -/
+theorem no_int_multiple_between (d : ℤ) (a : ℚ) (ha : 0 < a) (h1 : 0 < (d : ℚ) * a) (h2 : (d : ℚ) * a < a) : False := by
+  rcases le_or_gt d 0 with h | h
+  · have : (d : ℚ) ≤ 0 := by exact_mod_cast h
+    nlinarith
+  · have : (1 : ℚ) ≤ (d : ℚ) := by exact_mod_cast h
+    nlinarith
+
+/-- **lower side in full**: for `a ≥ 2` and an admissible offset the realised count is at least
+`L + (N − L)/a − 2` -/
+theorem equi_count_lower (N L : Int) (a : ℚ) (off : Int) (hL0 : 0 ≤ L) (hLN : L ≤ N) (ha2 : 2 ≤ a)
+    (hoff : 0 ≤ off) (hoffb : off < roundHalfEven a) :
+    (L : ℚ) + ((N : ℚ) - L) / a - 2 ≤ (countTrue (equiMask N L a off) : ℚ) := by
+  have ha : 1 < a := by linarith
+  have ha0 : 0 < a := by linarith
+  rw [equi_count_decomp N L a off hL0 hLN ha hoff]
+  unfold equiCountFast
+  obtain ⟨hsplit, _⟩ := grid_split N L a off hL0
+  set g := fun (j : Nat) => roundHalfEven ((off : ℚ) + (j : ℚ) * a) with hg
+  set m := arangeLen off (N - 1) a with hm
+  set pad := acsPad N L with hpad
+  have hLq : ((L.toNat : ℕ) : ℚ) = (L : ℚ) := by
+    have : ((L.toNat : ℕ) : ℤ) = L := Int.toNat_of_nonneg hL0
+    exact_mod_cast this
+  have hL0q : (0 : ℚ) ≤ (L : ℚ) := by exact_mod_cast hL0
+  have hoffq : (0 : ℚ) ≤ (off : ℚ) := by exact_mod_cast hoff
+  -- offset bound: off + 1 ≤ round(a) ≤ a + 1/2
+  have ht : (off : ℚ) + 1 ≤ a + 1 / 2 := by
+    have h1 : off + 1 ≤ roundHalfEven a := by omega
+    have h2 : ((off + 1 : ℤ) : ℚ) ≤ ((roundHalfEven a : ℤ) : ℚ) := by exact_mod_cast h1
+    have h3 := rnd_upper a
+    push_cast at h2
+    linarith
+  -- the grid reaches N − 1
+  have hmlow : (N : ℚ) - 1 - off ≤ (m : ℚ) * a := by
+    have := arangeLen_lower (off : ℚ) ((N : ℚ) - 1) a
+    rw [div_le_iff₀ ha0] at this
+    exact this
+  -- the two prefix counts
+  let PA : ℕ → Bool := fun j => decide (g j < pad)
+  let PJ : ℕ → Bool := fun j => decide (g j < pad + L)
+  have monoA : ∀ i j, i ≤ j → PA j = true → PA i = true := by
+    intro i j hij h
+    simp only [PA, decide_eq_true_eq] at h ⊢
+    have := grid_mono a off ha i j hij
+    simp only [hg]; simp only [hg] at h; omega
+  have monoJ : ∀ i j, i ≤ j → PJ j = true → PJ i = true := by
+    intro i j hij h
+    simp only [PJ, decide_eq_true_eq] at h ⊢
+    have := grid_mono a off ha i j hij
+    simp only [hg]; simp only [hg] at h; omega
+  obtain ⟨_, hAfail, hAle⟩ := countP_prefix PA monoA m
+  obtain ⟨hJall, _, hJle⟩ := countP_prefix PJ monoJ m
+  set A := (List.range m).countP PA with hAdef
+  set J := (List.range m).countP PJ with hJdef
+  have hAJ : A ≤ J := by
+    apply List.countP_mono_left
+    intro j _ h
+    simp only [PA, PJ, decide_eq_true_eq] at h ⊢
+    omega
+  -- number of grid points above the block = m − J
+  have hB : (List.range m).countP (fun j => decide (pad + L ≤ g j)) + J = m := by
+    have := List.length_eq_countP_add_countP PJ (l := List.range m)
+    simp only [List.length_range] at this
+    have e : (List.range m).countP (fun j => decide (pad + L ≤ g j)) =
+        (List.range m).countP (fun a => decide ¬ (PJ a = true)) := by
+      apply List.countP_congr; intro j _; simp [PJ]
+    omega
+  have hout : ((((equiPositions N a off).filter fun p => !inAcs N L p).length : ℕ) : ℚ) + (J : ℚ) = (A : ℚ) + (m : ℚ) := by
+    have : ((equiPositions N a off).filter fun p => !inAcs N L p).length + J = A + m := by
+      rw [hsplit]; omega
+    exact_mod_cast this
+  push_cast
+  rw [hLq]
+  -- reduce to (A + m − J + 2)·a ≥ N − L
+  suffices hgoal : (N : ℚ) - L ≤ ((A : ℚ) + m - J + 2) * a by
+    have : ((N : ℚ) - L) / a ≤ (A : ℚ) + m - J + 2 := by
+      rw [div_le_iff₀ ha0]; exact hgoal
+    linarith
+  have hAleq : (A : ℚ) ≤ (m : ℚ) := by exact_mod_cast hAle
+  have hJleq : (J : ℚ) ≤ (m : ℚ) := by exact_mod_cast hJle
+  have hAJq : (A : ℚ) ≤ (J : ℚ) := by exact_mod_cast hAJ
+  -- degenerate cases: no grid point below pad+L, or all grid points below pad
+  rcases Nat.eq_zero_or_pos J with hJ0 | hJpos
+  · have hA0 : A = 0 := by omega
+    rw [hJ0, hA0]; push_cast
+    nlinarith
+  rcases Nat.eq_or_lt_of_le hAle with hAm | hAlt
+  · have hJm : J = m := by omega
+    rw [hAm, hJm]
+    nlinarith
+  -- main case
+  obtain ⟨J', hJ'⟩ : ∃ J', J = J' + 1 := ⟨J - 1, by omega⟩
+  have hgA : pad ≤ g A := by
+    have := hAfail hAlt
+    simp only [PA, decide_eq_false_iff_not, not_lt] at this
+    exact this
+  have hgJ : g J' < pad + L := by
+    have := hJall J' (by omega)
+    simp only [PJ, decide_eq_true_eq] at this
+    exact this
+  have s1 : (pad : ℚ) - 1 / 2 ≤ (off : ℚ) + (A : ℚ) * a := by
+    have h1 : ((pad : ℤ) : ℚ) ≤ ((g A : ℤ) : ℚ) := by exact_mod_cast hgA
+    have h2 := rnd_upper ((off : ℚ) + (A : ℚ) * a)
+    simp only [hg] at h1
+    linarith
+  have s2 : (off : ℚ) + (J' : ℚ) * a ≤ (pad : ℚ) + L - 1 / 2 := by
+    have h1 : ((g J' : ℤ) : ℚ) ≤ ((pad : ℤ) : ℚ) + L - 1 := by
+      have : g J' ≤ pad + L - 1 := by omega
+      exact_mod_cast this
+    have h2 := rnd_lower ((off : ℚ) + (J' : ℚ) * a)
+    simp only [hg] at h1
+    linarith
+  have hJq : (J : ℚ) = (J' : ℚ) + 1 := by rw [hJ']; push_cast; ring
+  -- the block is centred: N − L = 2·pad − ε, ε ∈ {0, 1}
+  have hε : (N : ℚ) - L = 2 * pad ∨ (N : ℚ) - L = 2 * pad - 1 := by
+    have : N - L = 2 * pad ∨ N - L = 2 * pad - 1 := by simp only [hpad, acsPad]; omega
+    rcases this with h | h
+    · left; exact_mod_cast h
+    · right; exact_mod_cast h
+  rw [hJq]
+  by_contra hneg
+  rw [not_le] at hneg
+  -- d = (m − J + 1) − A = m − J' − A
+  have hd : (((m : ℤ) - J' - A : ℤ) : ℚ) * a = (m : ℚ) * a - (J' : ℚ) * a - (A : ℚ) * a := by push_cast; ring
+  have hexp : ((A : ℚ) + m - (J' + 1) + 2) * a = (A : ℚ) * a + (m : ℚ) * a - (J' : ℚ) * a + a := by ring
+  rw [hexp] at hneg
+  apply no_int_multiple_between ((m : ℤ) - J' - A) a ha0
+  · rw [hd]; rcases hε with h | h <;> linarith
+  · rw [hd]; rcases hε with h | h <;> linarith
+
+
 end DirectVerif.MaskBudget
